@@ -1971,7 +1971,31 @@ def _np_where(c, a=None, b=None):
     return r
 
 
+def _int_prototype(x):
+    """the prototype of a *_like call is integer-typed (Python int, NumPy integer, integer array or sequence of ints)"""
+    if isinstance(x, (SymFloat, SymArray, SymBool, float)):
+        return False
+    if isinstance(x, SymInt):
+        return True
+    try:
+        return np.asarray(x).dtype.kind in "iu"
+    except Exception:
+        return False
+
+
+def _trunc_int(v):
+    """a float stored into an integer array (NumPy casts unsafely): truncation toward zero; NaN/inf give INT64_MIN"""
+    v = tf(v)
+    if S.mode == "R":
+        t = z3.If(v.v >= 0, z3.ToReal(z3.ToInt(v.v)), -z3.ToReal(z3.ToInt(-v.v)))
+        return RFloat(z3.If(ZB(v.fin()), t, z3.RealVal(-(2 ** 63))))
+    f = v.f
+    return FFloat(z3.If(z3.Or(z3.fpIsNaN(f), z3.fpIsInf(f)), fv(-float(2 ** 63)), z3.fpRoundToIntegral(z3.RTZ(), f)))
+
+
 def _np_full_like(x, fill_value, dtype=None, **kw):
+    if _int_prototype(x) if dtype is None else np.dtype(dtype).kind in "iu":
+        return ew_arr(lambda e, v: _trunc_int(v), x, fill_value)       # the result has the prototype's integer dtype
     return ew_arr(lambda e, v: tf(v), x, fill_value)
 
 
@@ -2320,6 +2344,7 @@ for _n in ("exp", "log", "log10", "log1p", "cos", "sin", "tan", "tanh", "sinh", 
     TABLE[_n] = _lift(_unary_uf(_n))
 
 _DROP_KW = ("out", "casting", "dtype", "order", "subok", "where", "signature")
+_KEEP_DTYPE = ("full_like",)        # the dtype decides whether an integer prototype truncates the fill value
 
 
 def _like(fill):
@@ -2347,7 +2372,7 @@ def dispatch(name, args, kw):
         where = kw.get("where", None)
         if where is True:
             where = None
-        kw = {k: v for k, v in kw.items() if k not in _DROP_KW}
+        kw = {k: v for k, v in kw.items() if k not in _DROP_KW or (k == "dtype" and name in _KEEP_DTYPE)}
     if any(isinstance(a, MaskedSelection) for a in args):
         sel = next(a for a in args if isinstance(a, MaskedSelection))
         return sel.__array_ufunc__(type("U", (), {"__name__": name}), "__call__", *args)
